@@ -217,6 +217,7 @@ def run(ctx):
         ok = bool(adds & tests)
         ctx.check("C12.R3", "each name is defined once in the header (set of names defined so far)", ok, group[0].where(), f"{names}: defined-so-far bookkeeping", "a type reachable twice would be defined twice (redefined named type on read)")
     _r4(ctx, a)
+    _shared(ctx)
 
 
 def _r4(ctx, a):
@@ -228,3 +229,7 @@ def _r4(ctx, a):
 
 def _assigned_from(f, name, param):
     return False
+
+
+def _shared(ctx):
+    ctx.borrow("C15", {"C15.R5": "C12.R5"}, "a piecewise-parsed schema refers to its named types by name everywhere the raw schema defines them inline: the JSON grammar must compile a reference exactly like the definition, with the referring field's own default", only=lambda o: "by-name" in o.get("instance", ""))
